@@ -3,7 +3,7 @@ C01 stage (c): reading the placed bits back. After `place_on_matrix_data` on the
 cell of the ISO read-out order holds bit k of the codeword sequence, for every codeword sequence
 (each encoding-region cell is visited exactly once: tier N `scanOk` + a counting lemma).
 -/
-import FastQr.Proofs.Total
+import FastQr.Proofs.PlaceInv
 namespace FastQr.Proofs.PlaceRead
 open FastQr Model Spec Finite Proofs
 
